@@ -1,8 +1,93 @@
 import Driver.Util
+import BtcVerif.Model.Bech32
+import BtcVerif.Spec.Chain
 
+/-!
+  Line-protocol ops of the bech32 / segwit-address model.
+  Python strings travel as `,`-separated decimal code points (so that blanks, tabs, non-ASCII and the
+  empty string are all representable); replies that are addresses are printable ASCII and sent plain.
+-/
 namespace Driver.C11
 open BtcVerif Driver
+open BtcVerif.Model.Bech32
 
-def handle (_op : String) (_args : List String) : Option String := none
+def parseStr? (s : String) : Option (List Char) := do
+  let ns ← parseNatList? s
+  ns.mapM (fun n => if n.isValidChar then some (Char.ofNat n) else none)
+
+def showNats (l : List Nat) : String := joinWith "," (l.map toString)
+
+def showStr (s : List Char) : String := showNats (s.map Char.toNat)
+
+def showProg (v : Nat) (p : List Nat) : String :=
+  toString v ++ ":" ++ toHex (p.map UInt8.ofNat)
+
+def showDecode : Res (Option (Nat × List Nat)) → String
+  | .error e => "err:" ++ e.family
+  | .ok none => "none"
+  | .ok (some (v, p)) => showProg v p
+
+def showEncode : Res (Option (List Char)) → String
+  | .error e => "err:" ++ e.family
+  | .ok none => "none"
+  | .ok (some s) => String.ofList s
+
+def handle (op : String) (args : List String) : Option String :=
+  match op, args with
+  | "c11.polymod", [vs] => some <| match parseNatList? vs with
+      | some vs => toString (polymod vs)
+      | none => badArgs
+  | "c11.hrpExpand", [h] => some <| match parseStr? h with
+      | some h => showNats (hrpExpand h)
+      | none => badArgs
+  | "c11.createChecksum", [h, d] => some <| match parseStr? h, parseNatList? d with
+      | some h, some d => showNats (createChecksum h d)
+      | _, _ => badArgs
+  | "c11.verifyChecksum", [h, d] => some <| match parseStr? h, parseNatList? d with
+      | some h, some d => if verifyChecksum h d then "True" else "False"
+      | _, _ => badArgs
+  | "c11.convertbits", [d, f, t, p] => some <|
+      match parseNatList? d, parseNat? f, parseNat? t, parseNat? p with
+      | some d, some f, some t, some p =>
+          if t = 0 then badArgs else
+          (match convertbits d f t (p != 0) with
+           | none => "none"
+           | some r => "[" ++ showNats r ++ "]")
+      | _, _, _, _ => badArgs
+  | "c11.b32enc", [h, d] => some <| match parseStr? h, parseNatList? d with
+      | some h, some d =>
+          (match bech32Encode h d with
+           | .ok s => "s:" ++ showStr s
+           | .error e => "err:" ++ e.family)
+      | _, _ => badArgs
+  | "c11.b32dec", [s] => some <| match parseStr? s with
+      | some s =>
+          (match bech32Decode s with
+           | none => "none"
+           | some (h, d) => showStr h ++ ";" ++ showNats d)
+      | none => badArgs
+  | "c11.decode", [h, s] => some <| match parseStr? h, parseStr? s with
+      | some h, some s => showDecode (decodeR h s)
+      | _, _ => badArgs
+  | "c11.encode", [h, v, p] => some <| match parseStr? h, parseNat? v, parseHex? p with
+      | some h, some v, some p => showEncode (encodeR h v p)
+      | _, _, _ => badArgs
+  | "c11.new", [chain, s] => some <| match Spec.chainByName? chain, parseStr? s with
+      | some c, some s =>
+          (match cbech32New c.bech32Hrp.toList s with
+           | .ok (v, p) => toString v ++ ":" ++ toHex p
+           | .error e => "err:" ++ e.family)
+      | _, _ => badArgs
+  | "c11.str", [chain, v, p] => some <| match Spec.chainByName? chain, parseNat? v, parseHex? p with
+      | some c, some v, some p =>
+          -- str(CBech32Data.from_bytes(v, p))
+          (match fromBytes v (p.map UInt8.toNat) with
+           | .error e => "err:" ++ e.family
+           | .ok (v, p) =>
+             match cbech32Str c.bech32Hrp.toList v p with
+             | .ok s => String.ofList s
+             | .error e => "err:" ++ e.family)
+      | _, _, _ => badArgs
+  | _, _ => none
 
 end Driver.C11
